@@ -43,6 +43,15 @@ CHECKS = {
         note="Trusts the reference normaliser (splices, trigraphs, digraphs, tab expansion in block comments) and the "
              "cursor observation. Lexer runs that end in an exception are counted, not judged here (C05 does).",
         design="§3.1 M-LEX, §4.10"),
+    "C03": dict(
+        technique="runtime monitor on emitted diagnostics (M-DIAG) over files constructed to measure exactly n for each limit",
+        text="For each limit L (80 columns, 25 body lines, 5 functions, 4 parameters, 5 variables) and each n in [L-3, L+6] "
+             "files are constructed whose measured quantity is exactly n (asserted with an independent width function) in "
+             "every generated context (16 kinds of line, leading tabs, position in file, final newline; nested bodies "
+             "with neighbour functions; pointer/array/function-pointer declarators). The monitored run must emit the "
+             "limit's code on the measured line/function iff n > L.",
+        note="Trusts vis_width and the construction; other codes and duplicates are ignored as the property allows.",
+        design="§4.3"),
     "C05": dict(
         technique="sys.monitoring step clock (termination as bounded logical progress) + exception observation at the "
                   "lexer, registry and process boundaries",
